@@ -15,6 +15,26 @@ impl U256 {
     /// shift by n mod 256
     #[verifier::external_body] pub fn wrapping_shl(self, n: u32) -> (o: U256) ensures o@ == (self@ * pow2n((n % 256) as nat)) % m256() { unimplemented!() }
     #[verifier::external_body] pub fn wrapping_shr(self, n: u32) -> (o: U256) ensures o@ == self@ / pow2n((n % 256) as nat) { unimplemented!() }
+    // neighbouring ethnum methods a refactor would plausibly use (lesson 3 of DESIGN 8.6): same ASSUMED source, ethnum's documented semantics
+    #[verifier::external_body] pub fn checked_shl(self, n: u32) -> (o: Option<U256>) ensures n >= 256 ==> o is None, n < 256 ==> o is Some && o->Some_0@ == (self@ * pow2n(n as nat)) % m256() { unimplemented!() }
+    #[verifier::external_body] pub fn checked_shr(self, n: u32) -> (o: Option<U256>) ensures n >= 256 ==> o is None, n < 256 ==> o is Some && o->Some_0@ == self@ / pow2n(n as nat) { unimplemented!() }
+    #[verifier::external_body] pub fn overflowing_shl(self, n: u32) -> (o: (U256, bool)) ensures o.0@ == (self@ * pow2n((n % 256) as nat)) % m256(), o.1 == (n >= 256) { unimplemented!() }
+    #[verifier::external_body] pub fn overflowing_shr(self, n: u32) -> (o: (U256, bool)) ensures o.0@ == self@ / pow2n((n % 256) as nat), o.1 == (n >= 256) { unimplemented!() }
+    #[verifier::external_body] pub fn wrapping_add(self, r: U256) -> (o: U256) ensures o@ == (self@ + r@) % m256() { unimplemented!() }
+    #[verifier::external_body] pub fn wrapping_sub(self, r: U256) -> (o: U256) ensures o@ == ((self@ + m256() - r@) as nat) % m256() { unimplemented!() }
+    #[verifier::external_body] pub fn wrapping_mul(self, r: U256) -> (o: U256) ensures o@ == (self@ * r@) % m256() { unimplemented!() }
+    #[verifier::external_body] pub fn checked_add(self, r: U256) -> (o: Option<U256>) ensures self@ + r@ >= m256() ==> o is None, self@ + r@ < m256() ==> o is Some && o->Some_0@ == self@ + r@ { unimplemented!() }
+    #[verifier::external_body] pub fn checked_sub(self, r: U256) -> (o: Option<U256>) ensures self@ < r@ ==> o is None, self@ >= r@ ==> o is Some && o->Some_0@ == self@ - r@ { unimplemented!() }
+    #[verifier::external_body] pub fn checked_mul(self, r: U256) -> (o: Option<U256>) ensures self@ * r@ >= m256() ==> o is None, self@ * r@ < m256() ==> o is Some && o->Some_0@ == self@ * r@ { unimplemented!() }
+    #[verifier::external_body] pub fn saturating_add(self, r: U256) -> (o: U256) ensures o@ == (if self@ + r@ >= m256() { (m256() - 1) as nat } else { self@ + r@ }) { unimplemented!() }
+    #[verifier::external_body] pub fn saturating_sub(self, r: U256) -> (o: U256) ensures o@ == (if self@ < r@ { 0nat } else { (self@ - r@) as nat }) { unimplemented!() }
+    #[verifier::external_body] pub fn wrapping_div(self, r: U256) -> (o: U256) requires r@ != 0 ensures o@ == self@ / r@ { unimplemented!() }
+    #[verifier::external_body] pub fn wrapping_rem(self, r: U256) -> (o: U256) requires r@ != 0 ensures o@ == self@ % r@ { unimplemented!() }
+    #[verifier::external_body] pub fn as_u8(self) -> (o: u8) ensures o as nat == self@ % 0x100 { unimplemented!() }
+    #[verifier::external_body] pub fn as_u16(self) -> (o: u16) ensures o as nat == self@ % 0x1_0000 { unimplemented!() }
+    #[verifier::external_body] pub fn as_u64(self) -> (o: u64) ensures o as nat == self@ % 0x1_0000_0000_0000_0000 { unimplemented!() }
+    #[verifier::external_body] pub fn as_u128(self) -> (o: u128) ensures o as nat == self@ % vstd::arithmetic::power2::pow2(128) { unimplemented!() }
+    #[verifier::external_body] pub fn as_usize(self) -> (o: usize) ensures o as nat == self@ % 0x1_0000_0000_0000_0000 { unimplemented!() }
     #[verifier::external_body] pub fn as_u32(self) -> (o: u32) ensures o as nat == self@ % 0x1_0000_0000 { unimplemented!() }
     #[verifier::external_body] pub fn low(&self) -> (o: &u128) ensures *o as nat == self@ % vstd::arithmetic::power2::pow2(128) { unimplemented!() }
     #[verifier::external_body] pub fn to_be_bytes(self) -> (o: [u8; 32]) ensures o@ == be_bytes(self@) { unimplemented!() }
